@@ -313,7 +313,12 @@ func execWS(f []string) string {
 	defer conn.Close()
 
 	// report the peer's close frame as it arrived (the default handler would try to answer it)
-	conn.SetCloseHandler(func(int, string) error { return nil })
+	// answer the peer's close frame (the bridge now waits for the answer before it closes the connection, fix D32) but
+	// never turn a failure of that write into the read error: the close code is what is observed
+	conn.SetCloseHandler(func(code int, _ string) error {
+		_ = conn.WriteControl(websocket.CloseMessage, websocket.FormatCloseMessage(code, ""), time.Now().Add(time.Second))
+		return nil
+	})
 	pong := make(chan struct{}, 1)
 	conn.SetPongHandler(func(string) error {
 		select {
